@@ -79,6 +79,17 @@ SPEC = Spec(
         "model (decodeV/encodeV) is tied on these schemas by exact differential in the load harness (written leaves and untouched defaults of every instance)",
     ],
     assumptions=[
+        "leaf values are ids in the decode/encode model: per-kind hooks (UnmarshalText / MarshalText of text kinds, duration and ID parsing) are assumed to round-trip; the "
+        "generator writes every text kind of every built-in configuration from a value table (a missing table is a violation) so the round trip is searched, not proved",
+        "`omitempty`: a written zero value is left out of the effective configuration; the zero test (reflect.Value.IsZero on the typed configuration) is an "
+        "implementation-observed input of the flat overlay model; flagged only when the factory default is a non-zero value",
+        "explicit YAML nulls are generated for optionals but judged only by the typed comparison and the load itself (the models have no null)",
+        "the four custom Unmarshal methods of service::telemetry (telemetry.Config, v0.3.0 migration types) are fingerprinted and probed (unknown keys at 24 positions incl. list "
+        "elements, 12 written settings) but not modelled; open finding C13/strict/unknown-key-panics-remain-interface-field (otelconf AdditionalProperties) is harness-level",
+        "C13_strict (hand Schema language, tied by the dec differential) and C13_strict_ks / C13_strict_builtin (regenerated KS schemas) return no offending path: 'an error naming the "
+        "offending entry' is observed by the harness (strings.Contains(err, key)) for unknown keys; for reference/shape errors it is proved (C13_refs_names_*, C13_shape_names_duplicate)",
+        "C13_instances_independent is a statement about the loadAll model (fresh default per id); its differential feeds the PRISTINE factory default per type and lets the model decide "
+        "what each instance shows at written leaves and at default leaves under untouched top-level keys",
         "the built-in types with their own Unmarshal (regenerated list C13_builtin_custom_positions) are inside the theorems through hand-modelled fix-ups (hooksOfType: blocking alias, unwritten OTLP receiver protocols dropped, batcher reset), tied by exact differential and by regenerated body fingerprints (C13_hook_bodies_as_modelled); named exceptions: the *_url_path normalisation of the OTLP receiver and the unwritten settings below a written deprecated `batcher`",
         "the MarshalText/UnmarshalText round trip of text kinds is assumed; slices and maps are atoms in the decode model (element-wise faithfulness is checked by the harness only)",
         "feature gates at their defaults (service.AllowNoPipelines disabled)",
